@@ -847,3 +847,30 @@ Proof. vm_compute. split; reflexivity. Qed.
 Example cmap_f4_unequal_arrays :
   exists b, sub_write (F4 0 [7] [1; 2] [0; 0] [0; 0] []) = Ok b /\ parse b <> Ok (F4 0 [7] [1; 2] [0; 0] [0; 0] []).
 Proof. eexists. split; [vm_compute; reflexivity|]. vm_compute. discriminate. Qed.
+
+(* ----- obligations on the current source (Gen/GlyfCmapShapes.v is regenerated by tr_glyfcmap.py from
+   src/tables/glyf.rs and src/tables/cmap.rs on every run; Gen/GlyfConsts.v by tr_glyf.py) *)
+From AV Require Import Gen.GlyfCmapShapes.
+Theorem C15_glyf_cmap_writers_declared :
+  (* the composite flag word: bit values, the truncation mask, what the accessors test — as declared
+     in the OpenType glyf chapter, and as the model (through Gen/GlyfConsts.v) uses them *)
+  [cgf_arg_1_and_2_are_words; cgf_args_are_xy_values; cgf_round_xy_to_grid; cgf_we_have_a_scale; cgf_more_components;
+   cgf_we_have_an_x_and_y_scale; cgf_we_have_a_two_by_two; cgf_we_have_instructions; cgf_use_my_metrics;
+   cgf_overlap_compound; cgf_scaled_component_offset; cgf_unscaled_component_offset]
+  = [1; 2; 4; 8; 32; 64; 128; 256; 512; 1024; 2048; 4096] /\
+  cgf_all = 8175 /\ CF_ALL = cgf_all /\
+  [cgf_test_arg_1_and_2_are_words; cgf_test_args_are_xy_values; cgf_test_we_have_a_scale;
+   cgf_test_we_have_an_x_and_y_scale; cgf_test_we_have_a_two_by_two; cgf_test_more_components; cgf_test_we_have_instructions]
+  = [cf_arg_1_and_2_are_words; cf_args_are_xy_values; cf_we_have_a_scale; cf_we_have_an_x_and_y_scale;
+     cf_we_have_a_two_by_two; cf_more_components; cf_we_have_instructions] /\
+  [cf_arg_1_and_2_are_words; cf_args_are_xy_values; cf_we_have_a_scale; cf_we_have_an_x_and_y_scale;
+   cf_we_have_a_two_by_two; cf_more_components; cf_we_have_instructions] = [1; 2; 8; 64; 128; 32; 256] /\
+  scale_tests = [(8, KScale); (64, KXY); (128, KMatrix)] /\
+  (arg_kind true true, arg_kind true false, arg_kind false true, arg_kind false false) = (AI16, AU16, AI8, AU8) /\
+  cgw_number_of_contours = -1 /\
+  (* the cmap writers: format word, width of the (back-patched, checked) length field, width of the
+     (checked) count field; the segment limit; the reader's format 0 / format 4 constants *)
+  cmw_formats = [(0, PU16, None); (4, PU16, None); (6, PU16, Some PU16); (10, PU32, Some PU32); (12, PU32, Some PU32)] /\
+  cmw_max_segments = 32767 /\ cmr_f0_entries = 256 /\ cmr_f0_min_length = 262 /\ cmr_f4_header_words = (8, 4).
+Proof. vm_compute. repeat split; reflexivity. Qed.
+Print Assumptions C15_glyf_cmap_writers_declared.
